@@ -62,6 +62,8 @@ type Client struct {
 	// InjectConflicts: a rejected status write is, arbitrarily, a plain error or an optimistic-locking
 	// Conflict (somebody else modified the object since it was read).
 	InjectConflicts bool
+	// OnStatusUpdate, when set, runs before every status write (see statusWriter.Update).
+	OnStatusUpdate func(kind, name string) error
 	// CanonicalQuantities: stored pods hold their resource quantities in canonical form, as after a round
 	// trip through the API server.
 	CanonicalQuantities bool
@@ -596,6 +598,14 @@ func (s *statusWriter) Update(ctx context.Context, obj client.Object, opts ...cl
 	s.c.mu.Lock()
 	defer s.c.mu.Unlock()
 	e := s.c.logCall("status-update", obj)
+	// OnStatusUpdate: a hook run before a status write is applied (e.g. to play another writer that got
+	// in first); the error it returns is the answer of the call, which is then not applied
+	if s.c.OnStatusUpdate != nil {
+		if err := s.c.OnStatusUpdate(e.Kind, obj.GetName()); err != nil {
+			e.Failed = true
+			return err
+		}
+	}
 	f := s.c.fault()
 	if f == 1 {
 		e.Failed = true
